@@ -48,6 +48,8 @@ def check_case(ctx, case):
         for o, name in ((o1, "greater_equal_ecdf"), (o2, "less_equal_ecdf"), (o3, "get_quantiles")):
             if not o.ok:
                 ctx.unexpected(o, name)
+        if ctx.normalize("ecdf_value", lambda: [float(o.value) for o in (o1, o2) if o.ok] + [float(t) for o in (o3,) if o.ok for t in o.value]) is None:
+            continue
         if o1.ok and float(o1.value) != float(ge):
             ctx.violation("greater_equal_wrong", {"v": v, "got": o1.value, "want": str(ge)})
         if o2.ok and float(o2.value) != float(le):
@@ -66,6 +68,8 @@ def check_case(ctx, case):
     ob = call(stats.binned_ecdf, data, vals)
     if not ob.ok:
         ctx.unexpected(ob, "binned_ecdf")
+    elif ob.value is not None and ctx.normalize("binned_ecdf", lambda: [float(t) for t in ob.value[1]]) is None:
+        pass
     elif ob.value is None or [float(t) for t in ob.value[1]] != le_list:
         ctx.violation("binned_ecdf_wrong", {"got": None if ob.value is None else ob.value[1], "want": le_list})
 
